@@ -843,8 +843,10 @@ class ApplicationStartJobs(ApplicationJobs):
                 queued = True
             else:
                 self.logger.warn(f'ApplicationStartJobs.process_job: no resource available for {process.namespec}')
-                self.fail_command(command.process, '', time.monotonic(), 'No resource available')
+                # WARN: the starting failure strategy must be applied BEFORE the forced event is sent, because the latter
+                #       re-enters the Starter synchronously and may complete the application job (stop_request lost)
                 self.process_failure(process)
+                self.fail_command(command.process, '', time.monotonic(), 'No resource available')
         # return True when the job is queued
         return queued
 
